@@ -8,7 +8,7 @@ from dataclasses import dataclass, field
 from typing import Any
 
 VERIF = os.path.dirname(os.path.dirname(os.path.abspath(__file__)))
-FINDINGS_FILE = os.path.join(VERIF, "known_findings.json")
+FINDINGS_FILE = os.environ.get("VMC_FINDINGS_FILE") or os.path.join(VERIF, "known_findings.json")  # override: development only
 
 
 @dataclass
